@@ -28,7 +28,8 @@ CFG = dict(
                  "3": "an operation of the cancelled stream is still blocked at a quiescent point after the cancellation",
                  "4": "reset rule broken: no reset although no trailer had been received, more than one, for another id, or after a received trailer",
                  "5": "the handler's context is still live at a quiescent point after the reset reached the server's transport (or at the end, with everything delivered, a handler is left with a live context although its caller has gone)",
-                 "6": "the run wedged: a goroutine waits for a mutex for ever (watchdog)"},
+                 "6": "the run wedged: a goroutine waits for a mutex for ever (watchdog)",
+                 "7": "after the reset reached the server the handler is still parked inside an operation (its RecvMsg / SendMsg did not unblock on its context), or at the end, with everything delivered, the handler of the cancelled call has not returned"},
     rule="end-to-end lock-step in synctest bubbles (real client - two held FIFO wires - real server; user and handler programs are data): "
          "37 base traces (bidi / server-stream / client-stream conversations of C02: n requests x m responses, eager / queued-unread reads, "
          "ping-pong with pending receives, handler closing first, headers and trailers, error returns, request bursts) and for EACH a "
